@@ -29,6 +29,7 @@ PROPS = {
     'C09': dict(lean_quick=['Props.C09Fin'], prefixes=['p8e0::math', 'p16e1::math', 'p32e2::math']),
     'C10': dict(lean_quick=['Props.C10Fin'], prefixes=['p8e0::{', 'p16e1::{', 'p32e2::{', 'pxe1::{', 'pxe2::{']),
     'C17': dict(lean_quick=['Props.C17Fin'], prefixes=['p8e0', 'p16e1', 'p32e2', 'quire']),
+    'C11': dict(lean_quick=['Props.C11Fin'], prefixes=['p16e1::math', 'p8e0::math']),
     'C04': dict(lean_quick=['Props.C04'], prefixes=['quire8', 'quire16', 'quire32']),
     'C12': dict(lean_quick=['Props.C12'], prefixes=['quire8', 'quire16', 'quire32']),
 }
